@@ -292,7 +292,20 @@ def generate(scratch, hdir):
         sig = f"pub(crate) fn seg_{name}{spec.get('generics','')}({spec['params']}) -> {spec['ret']}"
         try:
             src = open(os.path.join(scratch, spec["file"])).read()
-            text, lines = cut(src, spec)
+            if spec.get("parts"):
+                texts, lo_, hi_ = [], 10**9, 0
+                for part in spec["parts"]:
+                    sub = dict(spec)
+                    sub.pop("parts")
+                    for k_ in ("after", "until", "inclusive", "until_inclusive", "in_block_of", "allow_await"):
+                        sub.pop(k_, None)
+                    sub.update(part)
+                    t_, l_ = cut(src, sub)
+                    texts.append(t_)
+                    lo_, hi_ = min(lo_, l_[0]), max(hi_, l_[1])
+                text, lines = "\n".join(texts), (lo_, hi_)
+            else:
+                text, lines = cut(src, spec)
             subs = []
             for pat, rep in spec.get("subst", []):
                 new, n = re.subn(pat, rep, text)
@@ -301,6 +314,12 @@ def generate(scratch, hdir):
                 subs.append({"pattern": pat, "replacement": rep, "count": n})
                 text = new
             body = (spec.get("prologue", "") + "\n" + text + "\n" + spec.get("epilogue", "")).strip("\n")
+            if spec.get("forget"):
+                # by-value inputs are only borrowed by the cut statements; run them in a closure
+                # and forget the inputs afterwards so that their drop glue (not part of the cut,
+                # and very expensive for CBMC) is not executed
+                fl = "".join(f"    std::mem::forget({v});\n" for v in spec["forget"])
+                body = f"    let __seg_r = {{\n        let mut __seg_f = || -> {spec['ret']} {{\n{body}\n        }};\n        __seg_f()\n    }};\n{fl}    __seg_r"
             out[mod].append(f"// ---- segment {name}: {spec['file']} fn {spec['func']} lines {lines[0]}-{lines[1]} (cut on this run)\n#[allow(unused_variables, unused_mut, unreachable_code, clippy::all)]\n{sig} {{\n{body}\n}}\n")
             info[name] = {
                 "ok": True,
